@@ -179,6 +179,7 @@ def cases(seed, tier):
         S = pg.S
         case["script"].append({"do": "call", "plan": [msg(S, "checkpoint"), msg(S, "null"), msg(S, "clear_checkpoint"), msg(S, "null")], "tag": "prelude"})
     case["script"].append({"do": "call", "plan": body, "main": True})
+    retarget = generic.second_suspender(case, ID, seed)
     dry, dv, n = generic.dry_run(case)
     yield case
     ci = generic.main_index(case)
@@ -192,7 +193,7 @@ def cases(seed, tier):
         inj = gen.gen_injections(rng, n, kinds=kinds, k=rng.choice([1, 1, 2]), slack=2)
         for i in inj:
             if i["do"] == "trip":
-                i["args"] = generic.trip_args(rng)
+                i["args"] = retarget(generic.trip_args(rng))
         c["script"][ci]["inject"] = inj
         decs = []
         for _ in range(4):
@@ -201,7 +202,7 @@ def cases(seed, tier):
                 d["inject"] = gen.gen_injections(rng, n, kinds=kinds, k=1, slack=2)
                 for i in d["inject"]:
                     if i["do"] == "trip":
-                        i["args"] = generic.trip_args(rng)
+                        i["args"] = retarget(generic.trip_args(rng))
             decs.append(d)
         c["script"][ci]["decisions"] = decs
         if pausables and rng.random() < 0.25:
